@@ -21,7 +21,7 @@ RULE = (
     "distinct (grid point, choice sequence)"
 )
 ASSUMPTIONS = [
-    "scheduling points are the operations on shared state (queue operations, thread start/join/termination); frame reads touch only reader-local state and are therefore not scheduling points (they are the fault-injection site)",
+    "scheduling points are the operations on shared state (queue operations, thread start/join/is_alive/termination); frame reads touch only reader-local state and are therefore not scheduling points (they are the fault-injection site)",
     "CPython's GIL and queue.Queue's own lock are the trusted base: only the protocol is explored, not memory-model effects; a free-running pass on the real queue.Queue re-runs the same bodies as a sanity check only",
     "a blocking call with a timeout / non-blocking call is modelled as an always-enabled point that raises Empty/Full when executed while it cannot be served",
     "bounds: N<=4, Q<=3, batch<=3 (quick); N<=6, Q<=4, batch<=4 (thorough); all (start,end) with 0<=start<=end<=N for VideoReader (plus None defaults)",
@@ -134,8 +134,20 @@ def reader_classes():
         def join(self, timeout=None):
             s = self._sched
             tid = self._tid
-            s.point("join", guard=lambda: s.th[tid].finished)
-            Thread.join(self, timeout=5)
+            if timeout is None:
+                s.point("join", guard=lambda: s.th[tid].finished)
+                Thread.join(self, timeout=5)
+            else:
+                s.point("join?")  # a timed join may return while the thread is still running
+
+        def is_alive(self):
+            # thread liveness is shared state: querying it is a scheduling point, so that a
+            # check-then-act sequence such as `queue.empty() and not reader.is_alive()` can be interleaved
+            s = self._sched
+            if self._tid is None:
+                return False
+            s.point("is_alive")
+            return not s.th[self._tid].finished
 
     _CLASSES["video"] = type("SVideoReader", (Mixin, VideoReader), {})
     _CLASSES["labels"] = type("SLabelsReader", (Mixin, LabelsReader), {})
